@@ -1,240 +1,63 @@
-"""Checks built on the `mgr` suite: C01 C02 C03 C17 C18 (and, through their own drivers, C13 C20)."""
-import json
-import os
-import sys
+"""Checks built on the `mgr` suite: C01 C02 C03 C17 C18."""
+import suite as S
+import mgrlib_cmp as cmp
 
-import common as C
-
-FAMILY = {"C01": "c01", "C02": "c02", "C03": "c03", "C17": "c17", "C18": "c18"}
-# exactly the observables of each property's `observe_at` (DESIGN.md, Appendix A)
-FIELDS = {
-    "C01": {"bad-op", "exc", "store", "defs"},
-    "C02": {"bad-op", "exc", "schedule", "trace"},
-    "C03": {"bad-op", "exc", "sup", "defs", "find_deps", "tasks", "expr"},
-    "C17": {"bad-op", "exc", "frozen", "defs", "sup", "store"},
-    "C18": {"bad-op", "exc", "trace", "store", "defs", "sup"},
-}
-SIZES = {  # histories per tier, max ops per history
-    "quick": {"C01": (640, 22), "C02": (640, 22), "C03": (1600, 16), "C17": (640, 22), "C18": (640, 22)},
-    "thorough": {"C01": (20000, 26), "C02": (20000, 26), "C03": (60000, 16), "C17": (20000, 24), "C18": (20000, 24)},
-}
 CHAINS = {"quick": "40,-40,1500,-1500,3000", "thorough": "40,-40,2000,-2000,5000,-5000,12000"}
 
 
-def worker_argv(family, seed, n, maxops, out, corpus=False, chains="", replay=None):
-    argv = [C.PY, os.path.join(C.HARNESS, "w_mgr.py"), "--family", family, "--seed", str(seed), "--n", str(n),
-            "--maxops", str(maxops), "--out", out]
-    if corpus:
-        argv += ["--corpus", "--chains", chains]
-    if replay:
-        argv += ["--replay", replay]
-    return argv
+class Mgr(S.Suite):
+    name = "mgr"
+    worker = "w_mgr.py"
+    FAMILY = {"C01": "c01", "C02": "c02", "C03": "c03", "C17": "c17", "C18": "c18"}
+    # exactly the observables of each property's `observe_at` (DESIGN.md, Appendix A)
+    FIELDS = {
+        "C01": {"bad-op", "exc", "store", "defs"},
+        "C02": {"bad-op", "exc", "schedule", "trace"},
+        "C03": {"bad-op", "exc", "sup", "defs", "find_deps", "tasks", "expr"},
+        "C17": {"bad-op", "exc", "frozen", "defs", "sup", "store"},
+        "C18": {"bad-op", "exc", "trace", "store", "defs", "sup"},
+    }
+    SIZES = {
+        "quick": {"C01": (640, 22), "C02": (640, 22), "C03": (1600, 16), "C17": (640, 22), "C18": (640, 22)},
+        "thorough": {"C01": (20000, 26), "C02": (20000, 26), "C03": (60000, 16), "C17": (20000, 24), "C18": (20000, 24)},
+    }
 
+    def family(self, prop):
+        return self.FAMILY[prop]
 
-def load_lines(path):
-    with open(path) as f:
-        return [json.loads(l) for l in f]
+    def fields(self, prop):
+        return self.FIELDS[prop]
 
+    def sizes(self, prop, tier):
+        n, maxops = self.SIZES[tier][prop]
+        return n, ["--maxops", str(maxops)]
 
-def compare(prefix, fields):
-    """diff the model's output with the implementation's, per history: first divergence only"""
-    sys.path.insert(0, C.HARNESS)
-    import mgrlib_cmp as cmp
-    ops = load_lines(prefix + ".ops.jsonl")
-    mod = load_lines(prefix + ".model.jsonl")
-    diffs = []
-    bad = set()
-    nlines = 0
-    if len(ops) != len(mod):
-        return [{"hist": -1, "field": "line-count", "impl": len(ops), "model": len(mod)}], 0
-    for o, m in zip(ops, mod):
-        if o["hist"] in bad:
-            continue
-        nlines += 1
-        d = [x for x in cmp.compare_line(o, m) if x[0] in fields]
-        if d:
-            bad.add(o["hist"])
-            f, a, b = d[0]
-            diffs.append({"hist": o["hist"], "line": m.get("n"), "op": o["op"], "field": f, "impl": a, "model": b})
-    return diffs, nlines
+    def extra_argv(self, prop, tier, job, build_index):
+        if job == 0 and build_index == 0 and prop in ("C01", "C02"):
+            return ["--corpus", "--chains", CHAINS[tier]]
+        return []
 
+    def compare_line(self, line, model):
+        return cmp.compare_line(line, model)
 
-def history_ops(prefix, hist, upto=None):
-    out = []
-    for o in load_lines(prefix + ".ops.jsonl"):
-        if o["hist"] == hist:
-            out.append({k: v for k, v in o.items() if k not in ("impl", "order", "hist", "light")})
-    return out if upto is None else out[:upto + 1]
+    def nontrivial(self, stats, prop):
+        return int(stats.get("dataops", 0))
 
+    def rule(self, prop):
+        return ("operations of randomly generated manager histories (family %s, structured generator with a hidden rank "
+                "making most data flow acyclic) plus the corpus scenarios; non-trivial = an assignment (value / "
+                "expression / in-place) that went far enough to compute a schedule; histories come from distinct PRNG states"
+                % self.FAMILY[prop])
 
-def replay_batch(build, family, cands, tag):
-    """run candidate operation lists; returns per candidate the list of failures"""
-    sc = C.scratch()
-    inp = os.path.join(sc, "cand_%s.json" % tag)
-    with open(inp, "w") as f:
-        json.dump(cands, f)
-    out = os.path.join(sc, "cand_%s" % tag)
-    C.run_jobs([(worker_argv(family, 0, 0, 0, out, replay=inp), C.py_env(build))])
-    res = json.load(open(out + ".res.json"))
-    per = [[] for _ in cands]
-    for fl in res["failures"]:
-        if 0 <= fl["hist"] < len(cands):
-            per[fl["hist"]].append(fl)
-    return per, out
+    def trusted(self, prop):
+        return ["correspondence harness harness/w_mgr.py + harness/mgrlib.py (generators, canonicalisation, diff)",
+                "Python's dict/list/attribute semantics and int arithmetic as modelled in XModel/Store.lean and Manager.pyBinRaw"]
 
-
-def shrink(build, family, ops, prop, kind):
-    """greedy one-operation removal, batched, until no single removal keeps the failure"""
-    cur = ops
-    for _ in range(60):
-        idx = [i for i, o in enumerate(cur) if o["op"] not in ("reset", "container")]
-        cands = [cur[:i] + cur[i + 1:] for i in idx]
-        if not cands:
-            break
-        try:
-            per, _ = replay_batch(build, family, cands, "shrink")
-        except C.Infra:
-            break
-        nxt = None
-        for c, fl in zip(cands, per):
-            if any(f["property"] == prop and f["kind"] == kind for f in fl):
-                nxt = c
-                break
-        if nxt is None:
-            break
-        cur = nxt
-    return cur
+    def assumptions(self, prop):
+        return ["Python object model (dict/list/attribute get/set, exceptions) as modelled in XModel/Store.lean",
+                "set iteration order = arbitrary permutation (scheduler parameter of the model)",
+                "generated histories respect the property's exclusions (no container overwritten, one writer per location)"]
 
 
 def run(prop, tier, seed, replay=None):
-    v = C.Verdict(prop, tier, seed)
-    family = FAMILY[prop]
-    pure = C.build_pure()
-    if replay:
-        return do_replay(prop, family, pure, replay)
-
-    # ---- Lean side: build, forbidden constructs, axioms ----
-    ok, log = C.lean_build()
-    hits = C.grep_forbidden()
-    thms, problems = ({}, ["lake build failed"]) if not ok else C.audit(prop)
-    lean_problems = (["lake build failed: " + log[-1500:]] if not ok else []) + \
-                    (["forbidden construct: " + h for h in hits]) + problems
-
-    # ---- implementation side: histories + oracles ----
-    n, maxops = SIZES[tier][prop]
-    builds = [("pure", pure, None)]
-    if tier == "thorough":
-        builds += [("compiled", C.build_compiled(), None), ("pure", pure, 1), ("pure", pure, 2)]
-    jobs, prefixes = [], []
-    sc = C.scratch()
-    per_job = max(1, n // C.NPROC)
-    for bi, (bname, bdir, hs) in enumerate(builds):
-        for j in range(C.NPROC if bi == 0 else 4):
-            pref = os.path.join(sc, "%s_%s_%d_%d" % (prop, bname, bi, j))
-            jobs.append((worker_argv(family, seed * 1000 + bi * 100 + j, per_job if bi == 0 else per_job // 2, maxops, pref,
-                                     corpus=(j == 0 and bi == 0 and prop in ("C01", "C02")), chains=CHAINS[tier]),
-                         C.py_env(bdir, hs if hs is not None else (seed * 31 + j) % 1000)))
-            prefixes.append((pref, bdir))
-    C.run_jobs(jobs)
-
-    stats_total = {}
-    failures = []
-    for pref, bdir in prefixes:
-        res = json.load(open(pref + ".res.json"))
-        for k, val in res["stats"].items():
-            if isinstance(val, (int, float)):
-                stats_total[k] = stats_total.get(k, 0) + val
-        for fl in res["failures"]:
-            if fl["property"] == prop:
-                failures.append((pref, bdir, fl))
-
-    # ---- correspondence: the same lines through the model ----
-    diffs = []
-    nlines = 0
-    if ok:
-        for pref, bdir in prefixes:
-            C.run_driver("mgr", pref + ".ops.jsonl", pref + ".model.jsonl")
-            d, nl = compare(pref, FIELDS[prop])
-            nlines += nl
-            diffs += [(pref, bdir, x) for x in d]
-
-    # ---- verdict ----
-    seen = set()
-    samples = []
-    for pref, bdir, fl in failures:
-        key = (fl["kind"], fl.get("known"))
-        if key in seen and len(seen) >= 1:
-            continue
-        seen.add(key)
-        if fl["hist"] >= 1000:
-            ops = history_ops(pref, fl["hist"], fl["op_index"])
-            if not fl.get("known"):
-                ops = shrink(bdir, family, ops, prop, fl["kind"])
-        else:
-            ops = history_ops(pref, fl["hist"])
-        v.failing_input(fl, {"suite": "mgr", "family": family, "ops": ops})
-    if not v.violations:
-        if lean_problems:
-            v.broken("lean: " + "; ".join(lean_problems)[:600], {"suite": "mgr", "theorem_or_obligation": lean_problems[:5]})
-        if diffs:
-            pref, bdir, d0 = diffs[0]
-            ops = history_ops(pref, d0["hist"])
-            v.broken("correspondence: model and implementation disagree on `%s` after `%s`" % (d0["field"], d0["op"]),
-                     {"suite": "mgr", "family": family, "ops": ops, "first_divergence": d0, "n_diverging_histories": len(diffs)})
-
-    # ---- evidence ----
-    if prefixes:
-        some = load_lines(prefixes[-1][0] + ".ops.jsonl")
-        h0 = some[0]["hist"] if some else None
-        samples = [{k: val for k, val in o.items() if k not in ("impl", "hist")} for o in some if o["hist"] == h0][:12]
-    C.proof_coverage(v, thms, extra_tb=[
-        "correspondence harness harness/w_mgr.py + harness/mgrlib.py (generators, canonicalisation, diff)",
-        "Python's dict/list/attribute semantics and int arithmetic as modelled in XModel/Store.lean and Manager.pyBinRaw"])
-    distinct = int(stats_total.get("dataops", 0))
-    v.coverage.update({
-        "evaluations": int(stats_total.get("ops", 0)),
-        "distinct_nontrivial": distinct,
-        "rule": "operations of randomly generated manager histories (family %s, structured generator with a hidden rank "
-                "making most data flow acyclic); non-trivial = an assignment (value / expression / in-place) that "
-                "completed far enough to compute a schedule; histories are drawn from distinct PRNG states" % family,
-        "samples": samples,
-        "traces_validated_against_impl": nlines,
-        "histories": int(stats_total.get("histories", 0)),
-        "correspondence_divergences": len(diffs),
-        "oracle_failures": len(failures),
-        "input_distribution": {k: val for k, val in sorted(stats_total.items())},
-        "builds": sorted(set(b[0] + ("" if b[2] is None else "/hashseed=%d" % b[2]) for b in builds)),
-        "lean_problems": lean_problems,
-    })
-    v.assumptions = ["Python object model (dict/list/attribute get/set, exceptions) as modelled in XModel/Store.lean",
-                     "set iteration order = arbitrary permutation (scheduler parameter of the model)",
-                     "generated histories respect the property's exclusions (no container overwritten, one writer per location)"]
-    return v.finish()
-
-
-def do_replay(prop, family, build, path):
-    payload = json.load(open(os.path.join(C.VERIF, path) if not os.path.isabs(path) else path))
-    if "ops" not in payload:
-        print(json.dumps(payload, indent=1)[:4000])
-        return 0
-    per, out = replay_batch(build, family, [payload["ops"]], "replay")
-    ok, _ = C.lean_build()
-    lines = load_lines(out + ".ops.jsonl")
-    model = []
-    if ok:
-        C.run_driver("mgr", out + ".ops.jsonl", out + ".model.jsonl")
-        model = load_lines(out + ".model.jsonl")
-    for i, o in enumerate(lines):
-        m = model[i] if i < len(model) else {}
-        op = {k: val for k, val in o.items() if k not in ("impl", "hist")}
-        print("op   :", json.dumps(op)[:400])
-        print(" impl: exc=%s trace=%s" % (o["impl"]["exc"], json.dumps(o["impl"].get("trace"))[:300]))
-        print(" model: exc=%s trace=%s sched=%s" % (m.get("exc"), json.dumps(m.get("trace"))[:300], m.get("sched")))
-    mine = [f for f in per[0] if f["property"] == prop]
-    for f in per[0]:
-        print("oracle:", json.dumps(f))
-    if any(not f.get("known") for f in mine):
-        print("VIOLATION property=%s replay=%s" % (prop, path))
-        return 1
-    print("replay: no oracle failure for %s on the current tree" % prop)
-    return 0
+    return S.run(Mgr(), prop, tier, seed, replay)
